@@ -34,6 +34,11 @@ FORESTS = {
                ("Extras", "Server-HA-Extras", "Server-HA", ["x86_64"]),
                ("HAExtras", "Server-HAExtras", "Server", ["s390x"]),
                ("ServerHA", "ServerHA", None, ["x86_64"])],
+    # ids that repeat along a chain: the UID "X-X-X" read as a path is X / X / X, and "X-X" is both a UID and a relative path below X
+    "repeat": [("X", "X", None, ["x86_64", "s390x"]),
+               ("X", "X-X", "X", ["x86_64", "s390x"]),
+               ("X", "X-X-X", "X-X", ["x86_64"]),
+               ("XX", "XX", None, ["x86_64"])],
 }
 TYPE_OF = {"optional": "optional", "HA": "addon", "RT": "variant"}
 
@@ -236,7 +241,7 @@ def jobs(tier, seed):
         if forest != "empty":
             out.append({"harness": "reload_consistent", "params": {"forest": forest}})
     type_sets = [None, ["variant"], ["optional", "addon"], ["addon"], ["variant", "optional", "addon", "layered-product"], ["self"], ["self", "addon"]]
-    for forest in ("chain", "wide", "seven", "dashed", "concat"):
+    for forest in ("chain", "wide", "seven", "dashed", "concat", "repeat"):
         starts = [None] + [u for i, u, p, a in FORESTS[forest] if any(pp == u for _, _, pp, _ in FORESTS[forest])]
         for si, start in enumerate(starts):
             for ti, ts in enumerate(type_sets):
